@@ -74,6 +74,10 @@ def _root_spec(full, S):
         ["lk/.links", "f", "Name=Out abs\nType=0\nPath=/../secret.txt\nHost=+\nPort=+\n\nName=Out rel\nType=0\nPath=../../secret.txt\n\n"
                            "Name=Out dir\nType=1\nPath=/../rootx\n"],
         ["lk/in.txt", "f", "in\n"],
+        # link blocks that leave out Name= or Type= (a server may fill such gaps from the target - never from outside the root)
+        ["lk2/.links", "f", "Type=0\nPath=/../secret.txt\nHost=+\nPort=+\n\nName=No type\nPath=/../secret.txt\n\n"
+                            "Name=Dot slash\nPath=./../../secret.txt\n\nName=Dir no type\nPath=/../rootx\n\nName=Inside\nPath=/readme.txt\n"],
+        ["lk2/in.txt", "f", "in\n"],
         ["dir/file.txt", "f", "file\n"],
         ["dir/sub/deep.txt", "f", "deep\n"],
         ["box.mbox", "f", sites.mbox_text(["inside one", "inside two"])],
@@ -154,7 +158,7 @@ def _outside_spec(variant):
     return spec
 
 
-BASES = ["/", "/gm", "/lk", "/gm", "/lk", "/readme.txt", "/dir", "/dir/file.txt", "/dir/sub/deep.txt", "/box.mbox", "/md", "/page.html",
+BASES = ["/", "/gm", "/lk", "/gm", "/lk", "/lk2", "/lk2", "/readme.txt", "/dir", "/dir/file.txt", "/dir/sub/deep.txt", "/box.mbox", "/md", "/page.html",
          "/arc.zip", "/arc.zip/a.txt", "/arc.zip/d", "/arc.zip/d/b.txt", "/arc.zip/box.mbox", "/arc.zip/inner.zip",
          "/arc.zip/lnk", "/arc.zip/abs", "/arc.zip/abs2", "/arc.zip/up", "/arc.zip/rel", "/arc.zip/s.sh",
          "/arc.zip/m.pyg", "/arc.zip/md", "/arc.zip/t.html.tal", "/run.sh", "/hello.pyg", "/t.html.tal", "/c.txt.gz",
